@@ -24,6 +24,10 @@ pub fn perform_auto_snapshot(
 
     // Load history
     let history_path = state::history_path(project_root);
+    // Hold the update lock from the load to the save (see `state::lock_for_update`)
+    let Some(_update_lock) = state::lock_for_update(&history_path, "history file") else {
+        return;
+    };
     let mut history = TrendHistory::load_or_default(&history_path);
 
     #[cfg(feature = "verif-hooks")]
